@@ -207,6 +207,13 @@ Section Laws.
   Theorem apply_scale a T m x : apply T m (vscale a x) = vscale a (apply T m x).
   Proof. unfold apply. rewrite <- fold_step_vscale, vscale_vzero. reflexivity. Qed.
 
+  Theorem apply_lincomb a T m x1 x2 : length x1 = length x2 ->
+    apply T m (vadd (vscale a x1) x2) = vadd (vscale a (apply T m x1)) (apply T m x2).
+  Proof.
+    intros Hl. rewrite apply_add by (unfold vscale; rewrite map_length; exact Hl).
+    rewrite apply_scale. reflexivity.
+  Qed.
+
   (* --- concatenation of triple lists adds the maps --- *)
   Lemma fold_step_acc T x y1 y2 : length y1 = length y2 ->
     fold_left (step x) T (vadd y1 y2) = vadd (fold_left (step x) T y1) y2.
